@@ -86,3 +86,20 @@ pub(crate) unsafe fn stub_cstr_from_ptr<'a>(ptr: *const core::ffi::c_char) -> &'
     }
     unsafe { core::ffi::CStr::from_bytes_with_nul_unchecked(core::slice::from_raw_parts(ptr as *const u8, n + 1)) }
 }
+
+/// `<[u16]>::fill` as used by the code-length decoder: zero runs (codes 17/18, up to 138 elements) become one
+/// `write_bytes` (no loop to unwind); a repeat of the previous non-zero length (code 16) is at most 6 elements.
+pub(crate) fn stub_fill_u16_runs<T: Clone>(s: &mut [T], v: T) {
+    assert!(core::mem::size_of::<T>() == 2);
+    let v16: u16 = unsafe { core::mem::transmute_copy(&v) };
+    if v16 == 0 {
+        unsafe { core::ptr::write_bytes(s.as_mut_ptr(), 0u8, s.len()) };
+    } else {
+        assert!(s.len() <= 6, "a non-zero length is only ever repeated 3..=6 times");
+        let mut i = 0;
+        while i < s.len() {
+            s[i] = v.clone();
+            i += 1;
+        }
+    }
+}
